@@ -65,9 +65,13 @@ def nightly_macro():
     fcntl.flock(lock, fcntl.LOCK_EX)
     try:
         if not os.path.exists(so + ".ok"):
-            for old in sorted(glob.glob(os.path.join(build.BUILD, "macro-nightly-*")), key=os.path.getmtime)[:-2]:
-                if old != tdir:
-                    shutil.rmtree(old, ignore_errors=True)
+            now = time.time()
+            for old in glob.glob(os.path.join(build.BUILD, "macro-nightly-*")):
+                try:
+                    if old != tdir and now - os.path.getmtime(old) > 3 * 3600:
+                        shutil.rmtree(old, ignore_errors=True)
+                except OSError:
+                    pass
             p = subprocess.run(["cargo", "+nightly", "build", "--offline", "--lib", "--target-dir", tdir], cwd=build.repo(),
                                env=_env(), stdout=subprocess.PIPE, stderr=subprocess.STDOUT, text=True)
             if p.returncode != 0 or not os.path.exists(so):
@@ -76,6 +80,10 @@ def nightly_macro():
     finally:
         fcntl.flock(lock, fcntl.LOCK_UN)
         lock.close()
+    try:
+        os.utime(tdir, None)
+    except OSError:
+        pass
     _STATE[("macro", th)] = so
     return so
 
